@@ -225,6 +225,58 @@ func (c *Ctx) rulesC15() {
 					why = "replaces an entry deleted in the same handler"
 				}
 			}
+			// (b') the delete lives in a private helper of this handler (take /
+			// pop): its call precedes the insert and the delete happened on
+			// every path on which the helper reported success
+			if why == "" && f == tf {
+				for _, hf := range c.hostedFns(f) {
+					if hf == f {
+						continue
+					}
+					for _, w2 := range writesOfFieldIn(hf, fW) {
+						if w2.Kind != "delete" {
+							continue
+						}
+						si := c.standIn(f, w2.Instr)
+						if si == nil || !dominatesInstr(si, w.Instr) {
+							continue
+						}
+						always := true
+						for _, r := range returnsOf(hf) {
+							if !dominatesInstr(w2.Instr, r) {
+								always = false
+							}
+						}
+						onSuccess := false
+						res := hf.Signature.Results()
+						if !always && res.Len() >= 1 {
+							bi := res.Len() - 1
+							if bt, ok := res.At(bi).Type().Underlying().(*types.Basic); ok && bt.Kind() == types.Bool {
+								onSuccess = true
+								for _, r := range returnsOf(hf) {
+									if k, isK := constBool(retVals(r)[bi]); isK && !k {
+										continue
+									}
+									if !dominatesInstr(w2.Instr, r) {
+										onSuccess = false
+									}
+								}
+								// the insert is reached only on the helper's success
+								guarded := false
+								for _, g := range guardsOf(w.Instr.Block()) {
+									if ex, ok := g.Cond.(*ssa.Extract); ok && g.Pol && ex.Index == bi && ssa.Value(si.(ssa.Value)) == ex.Tuple {
+										guarded = true
+									}
+								}
+								onSuccess = onSuccess && guarded
+							}
+						}
+						if always || onSuccess {
+							why = "replaces an entry deleted by " + hf.Name() + " in the same handler"
+						}
+					}
+				}
+			}
 			// (c) guarded in place
 			for _, g := range guardsOf(w.Instr.Block()) {
 				if g.Pol && isLenWorkersLtMax(g.Cond) {
@@ -367,9 +419,37 @@ func (c *Ctx) rulesC15key() {
 			continue
 		}
 		mu := w.Instr.(*ssa.MapUpdate)
-		fromMap := flowsFrom(mu.Value, func(v ssa.Value) bool {
+		isLookup := func(v ssa.Value) bool {
 			lk, ok := v.(*ssa.Lookup)
 			return ok && loadOfField(lk.X) == fW
+		}
+		fromMap := flowsFrom(mu.Value, func(v ssa.Value) bool {
+			if isLookup(v) {
+				return true
+			}
+			// the result of a private pkg/node helper that hands out a looked-up record
+			var call *ssa.Call
+			idx := 0
+			switch x := v.(type) {
+			case *ssa.Call:
+				call = x
+			case *ssa.Extract:
+				call, _ = x.Tuple.(*ssa.Call)
+				idx = x.Index
+			}
+			if call == nil {
+				return false
+			}
+			callee := call.Call.StaticCallee()
+			if callee == nil || len(callee.Blocks) == 0 || callee.Pkg != w.Fn.Pkg || callee.Object() == nil || callee.Object().Exported() {
+				return false
+			}
+			for _, r := range returnsOf(callee) {
+				if idx < len(retVals(r)) && flowsFrom(retVals(r)[idx], isLookup) {
+					return true
+				}
+			}
+			return false
 		})
 		if !fromMap {
 			continue
